@@ -22,7 +22,7 @@ from .. import mechtrace, tlc, tracecheck
 from ..core import Outcome, Violation
 from ..tlaparse import parse_simulation_file, parse_state, to_json
 
-L1_CLAUSES = {"StartedOnlyWhenAll", "StopAtMostOnce", "StoppedOnlyWhenAll", "ExternalUntouched", "NoStall", "FaultReported", "TeardownStopsAll", "ExternalAnswered"}
+L1_CLAUSES = {"StartedOnlyWhenAll", "StopAtMostOnce", "StoppedOnlyWhenAll", "ExternalUntouched", "NoStall", "FaultReported", "TeardownStopsAll", "ExternalAnswered", "ShutdownMetricsStored"}
 # actions of Mechanic.tla that must be reachable in the model (NRecvFailure and the assertion branches are not: they need
 # duplicated or out-of-state acknowledgements, which the modelled environment never produces)
 REQUIRED_ACTIONS = ["MRecvStartEngine", "MRecvReset", "MWakeup", "MRecvFailureD", "MRecvStopEngine", "MRecvExit", "DRecvStartEngine", "DRecvConv", "DRecvExit", "RcStop", "RcReset", "RcTeardown", "RemoteJoins", "RemoteLeaves"]  # NodeProcess is an \\E-disjunct of Next, covered by unreached_disjuncts
@@ -267,7 +267,9 @@ def run(ctx, out):
         "supplier / provisioner / race store are recording stubs; the launcher is the real ProcessLauncher with only _start_node replaced "
         "(real cluster.Node, real telemetry.Telemetry with one recording device): the real ProcessLauncher.stop runs against a fake psutil "
         "whose process table the environment controls (alive, already gone, dying while terminated, ignoring SIGTERM); "
-        "provisioner.cleanup and Mechanic are real; a start failure on a host happens before any of its nodes is up (in create() or in "
+        "provisioner.cleanup, Mechanic and metrics.calculate_system_results are real; the system metrics store is the real in-memory "
+        "store made buffering like the Elasticsearch store (records searchable only after flush(refresh=True)), every node's "
+        "telemetry produces one final_index_size_bytes record while the node is shut down; a start failure on a host happens before any of its nodes is up (in create() or in "
         "launcher.start), at most one fault per run; race control behaves like racecontrol.BenchmarkActor (StopEngine only after "
         "EngineStarted, ActorExitRequest after a failure or after EngineStopped)",
         "<= 3 hosts (coordinator host + 2 remote daemons) x 2 ports, target lists of <= 3 entries in the model, <= 4 in random runs",
